@@ -109,7 +109,7 @@ func (fs *FullStack) WsConnect(token string) (res string) {
 	select {
 	case r := <-ch:
 		return r
-	case <-time.After(5 * time.Second):
+	case <-time.After(waitDeadline):
 		return "timeout"
 	}
 }
@@ -129,6 +129,28 @@ type tokPauser struct {
 	armed    bool
 	reached  chan struct{}
 	release  chan struct{}
+	timeouts int // lookups that were held and never released within holdDeadline (reported as HOLD-TIMEOUT)
+}
+
+// every wait of the harness has a deadline and ends as an observable, never as a hang
+const (
+	holdDeadline = 2 * time.Second // a held lookup lets itself go after this long
+	waitDeadline = 3 * time.Second // waiting for an answer of the implementation
+)
+
+// takeTimeouts returns and resets the number of held lookups that timed out.
+func (p *tokPauser) takeTimeouts() int {
+	p.mu.Lock()
+	defer p.mu.Unlock()
+	n := p.timeouts
+	p.timeouts = 0
+	return n
+}
+
+// flushCases writes the case files out (a killed run still shows everything up to the case in flight).
+func flushCases(c *Ctx) {
+	_ = c.cases.Flush()
+	_ = c.impl.Flush()
 }
 
 // arm: the next lookup of tok is held.  reached is closed when it is; close(release) lets it go on.
@@ -174,7 +196,10 @@ func (r *pausingTokRepo) GetTokenByValue(tok string) (*domains.Token, error) {
 	if rel != nil {
 		select {
 		case <-rel:
-		case <-time.After(10 * time.Second):
+		case <-time.After(holdDeadline):
+			r.p.mu.Lock()
+			r.p.timeouts++
+			r.p.mu.Unlock()
 		}
 	}
 	return t, err
